@@ -4,6 +4,8 @@ break the property, and name the expected rule.
 Variants (all built from /repo's current working tree in scratch copies under $TMPDIR, removed afterwards):
   fix:<commit>   the repaired defect is re-introduced by reverse-applying selftest/fixes/<commit>.diff
   seed:<id>      an independently seeded change from seeded/<id>/patch.diff is applied
+  benign:<id>    an independently written behaviour-preserving refactoring from seeded/<id>/patch.diff is applied: the check
+                 must stay SILENT (exit 0); an alarm there is a false alarm of the checker (analysis broken)
 A variant whose patch does not apply to the tree under analysis is skipped (reported, not an error).  A variant that
 applies and on which the expected rule stays silent means the rule lost its teeth: analysis broken (exit 2), never a
 violation of the property.  Nothing is compiled to objects or executed: each variant is analysed exactly like /repo.
@@ -31,6 +33,12 @@ def variants(pid):
             continue
         meta = json.load(open(mp))
         det = meta.get("static_checks", {}).get("detected_by", {})
+        if str(meta.get("kind", "")).startswith("benign"):
+            # behaviour-preserving refactoring of code that implements this property: the check must stay silent (exit 0)
+            if meta.get("property") == pid:
+                out.append({"name": "benign:" + d, "patch": os.path.join(sdir, d, "patch.diff"), "reverse": False, "rules": [], "silent": True,
+                            "what": meta.get("summary", "")[:120]})
+            continue
         if pid in det:
             out.append({"name": "seed:" + d, "patch": os.path.join(sdir, d, "patch.diff"), "reverse": False, "rules": det[pid],
                         "what": meta.get("summary", "")[:120]})
@@ -55,6 +63,9 @@ def _one(pid, v, base):
         env = dict(os.environ, HWLOC_REPO=copy, VERIF_OUT=out, VERIF_TIER="quick", VERIF_NO_SELFTEST="1")
         rr = subprocess.run([os.path.join(VERIF, "check"), pid, "--tier", "quick"], capture_output=True, text=True, env=env, cwd=VERIF)
         fired = sorted(set(l.split("rule=")[1].split(" ")[0] for l in rr.stdout.splitlines() if l.strip().startswith("rule=")))
+        if v.get("silent"):
+            return dict(v, status="silent" if rr.returncode == 0 else "ALARM", detail="exit %d, rules fired: %s" % (rr.returncode, ",".join(fired) or "none"),
+                        sites=[l.strip()[:200] for l in rr.stdout.splitlines() if l.strip().startswith(("rule=", "ANALYSIS-BROKEN"))][:3])
         ok = rr.returncode == 1 and any(x in fired for x in v["rules"])
         sites = [l.strip()[:200] for l in rr.stdout.splitlines() if l.strip().startswith("rule=") and any(("rule=" + x + " ") in l for x in v["rules"])]
         return dict(v, status="fired" if ok else "SILENT", detail="exit %d, rules fired: %s" % (rr.returncode, ",".join(fired) or "none"), sites=sites[:3])
@@ -79,10 +90,17 @@ def run(chk):
     finally:
         shutil.rmtree(base, ignore_errors=True)
     for r in res:
-        line = "self-test %-14s expect %-28s %s (%s)" % (r["name"], ",".join(r["rules"]), r["status"], r["detail"])
+        line = "self-test %-14s expect %-28s %s (%s)" % (r["name"], ",".join(r["rules"]) or "silence", r["status"], r["detail"])
         print(line)
         chk.notes.append(line + ("; " + r["sites"][0] if r.get("sites") else ""))
         if r["status"] == "skipped":
+            continue
+        if r.get("silent"):
+            chk.inst("R-SELFTEST", "<variant>", r["name"], True, "behaviour-preserving refactoring: " + r["detail"], loc=os.path.relpath(r["patch"], VERIF), nontrivial=True, info=(r["status"] != "silent"))
+            if r["status"] != "silent":
+                # on the unchanged tree this is a false alarm of the checker; on a tree that already violates the property the
+                # violation is reported by the main run anyway
+                chk.broke("self-test: the check is not silent on the behaviour-preserving variant %s (%s; %s)" % (r["name"], r["detail"], (r.get("sites") or [""])[0]))
             continue
         chk.inst("R-SELFTEST", "<variant>", r["name"], True if r["status"] == "fired" else True, r["detail"], loc=os.path.relpath(r["patch"], VERIF),
                  nontrivial=True, info=(r["status"] != "fired"))
